@@ -622,6 +622,34 @@ impl<'a> G<'a> {
                 w.push("\n");
                 1
             }
+            15 if self.r.chance(1, 5) => {
+                // body without braces: a single statement
+                w.push("if (");
+                self.cond(w);
+                w.push(") ");
+                self.single_body(w, depth, file);
+                if self.r.chance(1, 4) {
+                    w.push(" else ");
+                    self.single_body(w, depth, file);
+                }
+                1
+            }
+            16 | 17 if self.r.chance(1, 6) => {
+                if self.r.chance(1, 2) {
+                    w.push("while (");
+                    self.cond(w);
+                    w.push(") ");
+                    self.single_body(w, depth, file);
+                } else {
+                    let v = self.fresh("i");
+                    w.push(&format!("for int[32] {} in [0:2] ", v));
+                    let m = self.sc.mark();
+                    self.sc.ints.push(v);
+                    self.single_body(w, depth, file);
+                    self.sc.reset(m);
+                }
+                1
+            }
             15 => {
                 w.push("if (");
                 self.cond(w);
@@ -714,6 +742,24 @@ impl<'a> G<'a> {
             w.push(self.r.pick_str(&[" == ", " != ", "==", " !=  "]));
             self.int_operand(w);
         }
+    }
+
+    /// The single, brace-less statement that is the body of an `if`/`else`/`while`/`for`.
+    fn single_body(&mut self, w: &mut Tw, depth: usize, file: usize) {
+        let m = self.sc.mark();
+        if self.sw.nested_includes && self.r.chance(1, 3) {
+            self.nested_include(w, file);
+        } else if !self.sc.ints.is_empty() {
+            let t = self.r.pick(&self.sc.ints).clone();
+            w.push(&format!("{} = ", t));
+            self.int_operand(w);
+            w.push(";");
+        } else {
+            let _ = depth;
+            let n = self.fresh("v");
+            w.push(&format!("int[32] {};", n));
+        }
+        self.sc.reset(m);
     }
 
     fn block(&mut self, w: &mut Tw, depth: usize, file: usize) {
@@ -843,11 +889,38 @@ impl<'a> G<'a> {
                     continue;
                 }
             }
+            if self.sw.stdgates && self.sw.odd_spellings && roll == 91 && self.expansions_left > 0 {
+                // a path that is *almost* the standard library: an ordinary file include
+                self.expansions_left -= 1;
+                self.files[file_ix].expansions += 1;
+                let value = self
+                    .r
+                    .pick_str(&[
+                        "stdgates.inc/",
+                        "./stdgates.inc",
+                        "stdgates.inc/.",
+                        "stdgates.inc//",
+                        "STDGATES.INC",
+                        "stdgates.inc ",
+                        "sub/../stdgates.inc",
+                        "stdgates.incx",
+                        " stdgates.inc",
+                    ])
+                    .to_string();
+                meta.stmt_starts.push(start);
+                meta.includes.push((start, Some(value.clone())));
+                w.push("include ");
+                w.lexeme("string", &format!("\"{}\"", value));
+                w.push(";");
+                self.trivia(&mut w);
+                continue;
+            }
             if self.sw.stdgates && roll >= 92 {
                 meta.stmt_starts.push(start);
                 meta.includes.push((start, Some("stdgates.inc".into())));
                 w.push("include ");
-                w.lexeme("string", "\"stdgates.inc\"");
+                let lit = self.r.pick_str(&["\"stdgates.inc\"", "\"stdgates.inc\"", "'stdgates.inc'", "\"stdgates\\x2einc\""]);
+                w.lexeme("string", lit);
                 w.push(";");
                 self.std_included = true;
                 self.trivia(&mut w);
